@@ -1,2 +1,8 @@
 import Hyeong.Props.C03
-#print axioms HyC.C03.blocks_flatten
+#print axioms HyC.C03.blocks_partition
+#print axioms HyC.C03.dispatch_selects
+#print axioms HyC.C03.loop_refines_interpreter
+#print axioms HyC.C03.restore_reads_back
+#print axioms HyC.C03.compiled_level0
+#print axioms HyC.C03.compiled_equiv
+#print axioms HyC.C03.compiled_meets_definition
